@@ -405,3 +405,20 @@ Definition gcxs_axes_distinct (nax : option (list Z)) : bool :=
   match nax with Some l => nodupb l | None => true end.
 Definition gcxs_axes_ok (nax : option (list Z)) : bool :=
   gcxs_axes_nonempty nax && gcxs_axes_distinct nax.
+
+(* ------------------------------------------------------------------ dtype promotion of mean / var
+   dtype codes (tools/sitegen/reduce.py): 0 bool | 1..4 int8..int64 | 5..8 uint8..uint64 | 9 float16
+   | 10 float32 | 11 float64 | 12, 13 complex64/128.  [req] is the `dtype=` argument. *)
+Definition oz_dtype (o : option Z) : pyv := match o with None => VNone | Some z => VInt z end.
+
+(* SparseArray.mean: (dtype of the result, dtype the sum is accumulated in) — generated decision *)
+Definition mean_dtypes (self_dt : Z) (req : option Z) : res (Z * Z) :=
+  r <- s_mean_dtype (VInt self_dt) (oz_dtype req) ;;
+  match r with VTuple [VInt d; VInt i] => Ok (d, i) | _ => Raise OtherError end.
+
+(* SparseArray.var: the dtype handed to the two sums (None: NumPy's default for the input dtype) *)
+Definition var_dtype (self_dt : Z) (req : option Z) : res (option Z) :=
+  r <- s_var_dtype (VInt self_dt) (oz_dtype req) ;;
+  match r with VTuple [VInt d] => Ok (Some d) | VTuple [VNone] => Ok None | _ => Raise OtherError end.
+
+Definition int_or_bool_dtypes : list Z := [0; 1; 2; 3; 4; 5; 6; 7; 8].
